@@ -13,7 +13,7 @@ git -C "$WT" apply "$PATCH" || { echo "patch does not apply"; exit 4; }
 trap 'git -C "$WT" checkout -q -- .' EXIT
 cd /verif
 for p in "$@"; do
-  VERIF_REPO="$WT" VERIF_WORK=/tmp/work-mine timeout 2400 ./check "$p" quick > /tmp/seedrun_wt_$p.log 2>&1
-  echo "== $p exit=$? $(grep -cE '^VIOLATION' /tmp/seedrun_wt_$p.log) violation line(s)"
-  grep -E "^VIOLATION|^INCONCLUSIVE|^OK|^KNOWN" -A1 /tmp/seedrun_wt_$p.log | head -8
+  VERIF_REPO="$WT" VERIF_WORK=${SEED_WORK:-/tmp/work-mine} timeout 2400 ./check "$p" quick > /tmp/seedrun_wt_${SEED_TAG:-}$p.log 2>&1
+  echo "== $p exit=$? $(grep -cE '^VIOLATION' /tmp/seedrun_wt_${SEED_TAG:-}$p.log) violation line(s)"
+  grep -E "^VIOLATION|^INCONCLUSIVE|^OK|^KNOWN" -A1 /tmp/seedrun_wt_${SEED_TAG:-}$p.log | head -8
 done
